@@ -64,7 +64,7 @@ def mkscript(script):
 # ---------------------------------------------------------------------------------------------
 # user callables (mirrors Driver/Tools.lean parseFn)
 
-FLAVOURS = ("def", "async", "partial", "obj", "objx", "cls", "bound")
+FLAVOURS = ("def", "async", "partial", "obj", "objx", "cls", "bound", "wrapsdef")
 
 
 def _key(v):
@@ -155,6 +155,16 @@ def make_fn(spec, idx, log, flavour="def", stop_cls=StopAsyncIteration):
                     return body(args)
                 return co()
         return ObjX()
+    if flavour == "wrapsdef":
+        # a plain function returning plain values that is declared with functools.wraps(<an async def>): a synchronous
+        # facade / cached snapshot / test double of a coroutine function.  What counts is what the CALL returns.
+        async def original(*args):
+            raise AssertionError("the wrapped coroutine function must not be called")
+
+        @functools.wraps(original)
+        def facade(*args):
+            return body(args)
+        return facade
     if flavour == "cls":
         # a CLASS used as the callable: its instances are awaitable (an object whose call returns an awaitable)
         class AwaitableResult:
